@@ -1004,7 +1004,7 @@ def sqli_export(sc, d, rep, tier, only=None, export=True):
         res = vlib.tlc_mc(sc, d, "Sqli", "Sqli_" + name.replace(".", "_"), {
             "Units": units(un), "MaxLen": maxlen, "Openers": units(openers), "FlagSet": tla_set(flags),
             "Level": '"%s"' % level, "DoExport": "TRUE" if export else "FALSE"},
-            invariants=SQLI_INVS, timeout=6000, workers=TLC_PAR_WORKERS, heap="6g", extra=["-continue"])
+            invariants=SQLI_INVS, properties=["RefinesFoldIdx"], timeout=6000, workers=TLC_PAR_WORKERS, heap="6g", extra=["-continue"])
         tlc_sound(res, "Sqli/" + name)
         return res
 
@@ -1573,6 +1573,12 @@ def c01(tier, sc):
     # (1) model: lexer x folder x decision x cascade over all short inputs; every index the algorithm
     # uses stays in range (WindowInRange, NoWhitelistPanic, NoSemiIfPanic, LexInv), the loops terminate
     beh = sqli_export(sc, d, rep, tier, only={"lex", "check"})
+    # the index automaton of fold(): window bounds for token streams of any length (refinement: RefinesFoldIdx)
+    res = vlib.tlc_mc(sc, d, "FoldIdx", "FoldIdx", {}, invariants=["WindowInRange", "SlotsInRange", "ResultInRange"], timeout=300, workers=2)
+    if not res.ok:
+        rep.notes.append("model_counterexample: FoldIdx: %s violated" % res.violated)
+    rep.add_tlc("FoldIdx", res)
+    rep.part("FoldIdx", unbounded_token_streams=True, holds=bool(res.ok))
     inputs = list(vgen.dedup(b["in"] for b in beh))
     # (2) every construct cut at every offset, mutations, fragment walks, periodic tails
     extra = sqli_inputs(tier, "c01")
